@@ -125,6 +125,34 @@ _add("isclose", (2, 3, 4), lambda v, o, s: v.isclose(o[0], s["rtol"], s["atol"])
 _add("equal", (2, 3, 4), _m1("equal"), "bool", other="same")
 _add("not_equal", (2, 3, 4), _m1("not_equal"), "bool", other="same")
 
+# documented parameter names (vector._methods protocols of the pinned tree): the keyword form of every call
+KWARGS = {
+    "scale": [("factor", "s:factor")], "scale2D": [("factor", "s:factor")], "scale3D": [("factor", "s:factor")], "scale4D": [("factor", "s:factor")],
+    "rotateZ": [("angle", "s:angle")], "rotateX": [("angle", "s:angle")], "rotateY": [("angle", "s:angle")],
+    "rotate_euler": [("phi", "s:phi"), ("theta", "s:theta"), ("psi", "s:psi"), ("order", "s:order")],
+    "rotate_nautical": [("yaw", "s:yaw"), ("pitch", "s:pitch"), ("roll", "s:roll")],
+    "rotate_quaternion": [("u", "s:u"), ("i", "s:i"), ("j", "s:j"), ("k", "s:k")],
+    "transform2D": [("obj", "s:matrix")], "transform3D": [("obj", "s:matrix")], "transform4D": [("obj", "s:matrix")],
+    "is_timelike": [("tolerance", "s:tolerance")], "is_spacelike": [("tolerance", "s:tolerance")], "is_lightlike": [("tolerance", "s:tolerance")],
+    "rotate_axis": [("axis", "o:0"), ("angle", "s:angle")],
+    "boost_p4": [("p4", "o:0")], "boost_beta3": [("beta3", "o:0")], "boost": [("booster", "o:0")],
+    "boostCM_of_p4": [("p4", "o:0")], "boostCM_of_beta3": [("beta3", "o:0")], "boostCM_of": [("booster", "o:0")],
+    "is_parallel": [("other", "o:0"), ("tolerance", "s:tolerance")], "is_antiparallel": [("other", "o:0"), ("tolerance", "s:tolerance")], "is_perpendicular": [("other", "o:0"), ("tolerance", "s:tolerance")],
+    "isclose": [("other", "o:0"), ("rtol", "s:rtol"), ("atol", "s:atol")],
+}
+for _n in ("dot", "add", "subtract", "deltaphi", "deltaeta", "deltaR", "deltaR2", "deltaangle", "deltaRapidityPhi", "deltaRapidityPhi2", "cross", "equal", "not_equal"):
+    KWARGS[_n] = [("other", "o:0")]
+
+
+def kwcall(op, v, others, s):
+    """the call with every argument passed by its documented name, in reverse order"""
+    kw = {}
+    for name, src in reversed(KWARGS[op.name]):
+        kind, key = src.split(":")
+        kw[name] = others[int(key)] if kind == "o" else s[key]
+    return getattr(v, op.name)(**kw)
+
+
 BY_KEY = {op.key: op for op in OPS}
 NAMES = {op.name for op in OPS}
 
